@@ -16,16 +16,20 @@ MutantsAt(s, p) == {Ins(s, p, k) : k \in Alpha}
                    \cup (IF p = 0 THEN {s} ELSE {Del(s, p), Ins(s, p, s[p])})
                    \cup (IF p >= 1 /\ p < Len(s) THEN {Swap(s, p)} ELSE {})
 
-ArgKinds == {"LiteralToken", "CellIdentifierToken", "MatrixOfCellIdentifiersToken"}
+\* an argument is a token sequence: a literal, a cell, an area - or an EXPRESSION over them (cell + literal, literal %, a nested call):
+\* a function may not classify an argument by its first operand and lose the rest
+ArgKinds == { <<"LiteralToken">>, <<"CellIdentifierToken">>, <<"MatrixOfCellIdentifiersToken">>,
+              <<"CellIdentifierToken", "PlusOperatorToken", "LiteralToken">>, <<"LiteralToken", "PercentToken">>,
+              <<"SumKeywordToken", "BracketStartToken", "LiteralToken", "SeparatorToken", "LiteralToken", "BracketFinishToken">> }
 \* n arguments: pattern "uni" = all of kind a; "mfirst" = a matrix first, then kind a; "msecond" = kind a, a matrix, then kind a
 ArgList(n, a, pat) ==
-  LET kind(i) == IF pat = "mfirst" /\ i = 1 THEN "MatrixOfCellIdentifiersToken"
-                 ELSE IF pat = "msecond" /\ i = 2 THEN "MatrixOfCellIdentifiersToken" ELSE a
+  LET kind(i) == IF pat = "mfirst" /\ i = 1 THEN <<"MatrixOfCellIdentifiersToken">>
+                 ELSE IF pat = "msecond" /\ i = 2 THEN <<"MatrixOfCellIdentifiersToken">> ELSE a
       RECURSIVE F(_)
-      F(i) == IF i > n THEN <<>> ELSE (IF i > 1 THEN <<"SeparatorToken">> ELSE <<>>) \o <<kind(i)>> \o F(i + 1)
+      F(i) == IF i > n THEN <<>> ELSE (IF i > 1 THEN <<"SeparatorToken">> ELSE <<>>) \o kind(i) \o F(i + 1)
   IN F(1)
-CallsOf(k) == {<<k, "BracketStartToken">> \o ArgList(n, a, pat) \o <<"BracketFinishToken">> :
-                 n \in 0..MaxArgs, a \in ArgKinds, pat \in {"uni", "mfirst", "msecond"}}
+CallsOf(k) == UNION { {<<k, "BracketStartToken">> \o ArgList(n, a, pat) \o <<"BracketFinishToken">> :
+                          n \in 0..(IF Len(a) > 1 /\ MaxArgs > 3 THEN 3 ELSE MaxArgs), pat \in {"uni", "mfirst", "msecond"}} : a \in ArgKinds }
 
 \* shards are the initial states (processed by different TLC workers); the cases of a shard are its successors
 Shards == IF Mode = "mut" THEN {<<s, p>> : s \in Seeds, p \in 0..12} ELSE {<<k, 0>> : k \in Keywords}
